@@ -1034,6 +1034,10 @@ func (c *oblCtx) obligIndex(n *ast.IndexExpr) {
 					c.add("OBL-INDEX", n, construct, VOK, "I5: types.Typ indexed by a BasicKind constant", false)
 					return
 				}
+				if kc, ok := ast.Unparen(n.Index).(*ast.CallExpr); ok && fullName(calleeOf(c.info(), kc)) == "(*go/types.Basic).Kind" {
+					c.add("OBL-INDEX", n, construct, VOK, "I5: types.Typ indexed by the Kind() of a *types.Basic: the table has an entry for every kind go/types creates", true)
+					return
+				}
 			}
 		}
 	}
